@@ -342,6 +342,9 @@ def doc_faults(rng, rule_doc, macro_files, rule_rel="rule.yaml", max_per_kind=6,
         i = rng.choice(tl)
         cands.append(("malformed:tab_indent", "\n".join(lines[:i] + ["\t" + lines[i][2:]] + lines[i + 1:])))
     cands.append(("malformed:garbage_line", text + "}{ : : [\n"))
+    cands.append(("malformed:unterminated_quote", text + 'zzz: "never closed\n'))
+    cands.append(("malformed:two_documents", text + "---\n" + text))
+    cands.append(("malformed:bad_escape", text + 'zzz: "bad \\q escape"\n'))
     cuts = sorted({rng.randrange(1, max(2, len(text))) for _ in range(8)})
     ncut = 0
     for c in cuts:
